@@ -12,7 +12,7 @@
 (* harness can replay it into the real tool and have the recorded trace    *)
 (* validated by TraceSession.                                              *)
 (***************************************************************************)
-EXTENDS Session, Json, MCWords
+EXTENDS MCBase, Json
 
 CONSTANTS Tags,        \* connection tags in use, e.g. {"1", "2"}
           CIds,        \* client-range ids besides 1, e.g. {2, 3}
@@ -27,73 +27,6 @@ CONSTANTS Tags,        \* connection tags in use, e.g. {"1", "2"}
 
 VARIABLES S, inp, act
 vars == <<S, inp, act>>
-
-MiniProto ==
-  [wl_display |-> [version |-> 1, enums |-> [none |-> [bitfield |-> FALSE, entries |-> <<>>]],
-       msgs |-> [sync |-> <<[name |-> "callback", type |-> "new_id", iface |-> "wl_callback", eiface |-> "", ename |-> ""]>>,
-                 get_registry |-> <<[name |-> "registry", type |-> "new_id", iface |-> "wl_registry", eiface |-> "", ename |-> ""]>>,
-                 delete_id |-> <<[name |-> "id", type |-> "uint", iface |-> "", eiface |-> "", ename |-> ""]>>]],
-   wl_registry |-> [version |-> 1, enums |-> [none |-> [bitfield |-> FALSE, entries |-> <<>>]],
-       msgs |-> [bind |-> <<>>]],
-   wl_callback |-> [version |-> 1, enums |-> [none |-> [bitfield |-> FALSE, entries |-> <<>>]],
-       msgs |-> [done |-> <<[name |-> "callback_data", type |-> "uint", iface |-> "", eiface |-> "", ename |-> ""]>>]],
-   wl_compositor |-> [version |-> 6, enums |-> [none |-> [bitfield |-> FALSE, entries |-> <<>>]],
-       msgs |-> [create_surface |-> <<[name |-> "id", type |-> "new_id", iface |-> "wl_surface", eiface |-> "", ename |-> ""]>>]],
-   wl_surface |-> [version |-> 6, enums |-> [none |-> [bitfield |-> FALSE, entries |-> <<>>]],
-       msgs |-> [frame |-> <<[name |-> "callback", type |-> "new_id", iface |-> "wl_callback", eiface |-> "", ename |-> ""]>>,
-                 commit |-> <<>>,
-                 set_input_region |-> <<[name |-> "region", type |-> "object", iface |-> "wl_region", eiface |-> "", ename |-> ""]>>,
-                 enter |-> <<[name |-> "output", type |-> "object", iface |-> "wl_output", eiface |-> "", ename |-> ""]>>]],
-   wl_data_device |-> [version |-> 3, enums |-> [none |-> [bitfield |-> FALSE, entries |-> <<>>]],
-       msgs |-> [data_offer |-> <<[name |-> "id", type |-> "new_id", iface |-> "wl_data_offer", eiface |-> "", ename |-> ""]>>,
-                 selection |-> <<[name |-> "id", type |-> "object", iface |-> "wl_data_offer", eiface |-> "", ename |-> ""]>>]],
-   wl_data_offer |-> [version |-> 3, enums |-> [none |-> [bitfield |-> FALSE, entries |-> <<>>]],
-       msgs |-> [finish |-> <<>>]]]
-
-SrvIds1 == {-16777216}
-SrvIds2 == {-16777216, -1}
-NoCmds == {}
-NoJunk == {}
-NoIds  == {}
-
-\* matcher trees for the command sets
-AnyT == [k |-> "any"]
-Wd(w) == [k |-> "w", p |-> C(w)]
-Bare(o) == [k |-> "pat", form |-> "bare", conn |-> AnyT, obj |-> o]
-BareOn(c, o) == [k |-> "pat", form |-> "bare", conn |-> Wd(c), obj |-> o]
-Full(o, n) == [k |-> "pat", form |-> "full", conn |-> AnyT, obj |-> o, name |-> n, args |-> [k |-> "noargs"]]
-TypeO(w) == [k |-> "type", t |-> Wd(w)]
-IdO(i) == [k |-> "id", id |-> i]
-IdGenO(i, g) == [k |-> "idgen", id |-> i, gen |-> g]
-AnyO == [k |-> "any"]
-StarP == Bare(AnyO)
-ListM(pos, neg) == [k |-> "list", pos |-> pos, neg |-> neg]
-BangM == ListM(<<>>, <<>>)
-
-CmdFilter(ast) == [e |-> "cmd", c |-> "filter", hasarg |-> TRUE, ok |-> TRUE, ast |-> ast]
-CmdBreak(ast)  == [e |-> "cmd", c |-> "break", hasarg |-> TRUE, ok |-> TRUE, ast |-> ast]
-CmdBadFilter   == [e |-> "cmd", c |-> "filter", hasarg |-> TRUE, ok |-> FALSE, bad |-> "a.b.c"]
-CmdList(ast, cap) == [e |-> "cmd", c |-> "list", hasm |-> TRUE, ok |-> TRUE, ast |-> ast, cap |-> cap, caperr |-> FALSE]
-CmdListCur(cap)   == [e |-> "cmd", c |-> "list", hasm |-> FALSE, ok |-> TRUE, cap |-> cap, caperr |-> FALSE]
-CmdConn(a) == [e |-> "cmd", c |-> "conn", arg |-> a]
-
-\* C06: filter and selection changes at every point of the history
-CmdsLive == {CmdFilter(Bare(TypeO("wl_callback"))), CmdFilter(Full(AnyO, Wd("sync"))),
-             CmdFilter(ListM(<<>>, <<Bare(TypeO("wl_registry"))>>)), CmdFilter(BangM), CmdFilter(StarP),
-             CmdConn("A"), CmdConn("B"), CmdConn("all")}
-\* C11: queries over the recorded history
-CmdsList == {CmdList(StarP, -1), CmdList(StarP, 1), CmdList(StarP, 2), CmdList(Bare(TypeO("wl_callback")), -1),
-             CmdList(Bare(TypeO("wl_callback")), 1), CmdList(Full(AnyO, Wd("new")), 0),
-             CmdList(BareOn("B", IdGenO(2, 0)), -1), CmdListCur(-1), CmdListCur(1),
-             CmdConn("B"), CmdConn("all"), CmdFilter(Full(AnyO, Wd("sync")))}
-\* C12: accumulation of filter / breakpoint commands
-AtomA == Bare(TypeO("wl_callback"))
-AtomB == Full(AnyO, Wd("sync"))
-AtomC == Bare(IdGenO(2, 0))
-CmdsJoin == {CmdFilter(AtomA), CmdFilter(AtomB), CmdFilter(ListM(<<AtomC>>, <<AtomA>>)), CmdFilter(ListM(<<>>, <<AtomB>>)),
-             CmdFilter(StarP), CmdFilter(BangM), CmdBadFilter,
-             CmdBreak(AtomA), CmdBreak(ListM(<<>>, <<AtomC>>)), CmdBreak(StarP), CmdBreak(BangM)}
-FilterCb == Bare(TypeO("wl_callback"))
 
 NoFilter == [k |-> "nofilter"]
 AllFilter == IF Filter0.k = "nofilter" THEN FAll ELSE Refine(FAll, Filter0)
@@ -114,13 +47,6 @@ Free(d)  == {i \in CIds : ~Alive(d, i) /\ Gens(d, i) < MaxGen} \cup {i \in SIds 
 CFree(d) == {i \in CIds : ~Alive(d, i) /\ Gens(d, i) < MaxGen}
 SFree(d) == {i \in SIds : Gens(d, i) < MaxGen}
 OfType(d, ty) == {i \in DOMAIN d : Latest(d, i).type = ty}
-
-Msg(ty, i, name, sent, args) == [ttype |-> ty, tid |-> i, name |-> name, sent |-> sent, args |-> args]
-New(ty, i) == [k |-> "new", type |-> ty, id |-> i]
-ObjA(ty, i) == [k |-> "obj", type |-> ty, id |-> i]
-NilA == [k |-> "nil", type |-> ""]
-IntA(v) == [k |-> "int", v |-> v]
-StrA(s) == [k |-> "str", s |-> s]
 
 \* `side`: TRUE if the log was taken on the server (requests are received, events sent)
 Messages(d, side, first) ==
